@@ -82,6 +82,13 @@ struct Decoder<'a> {
 }
 
 fn judge(dec: &Decoder, e: &mut Ent, lower_d: u64, lower_s: u64, upper_d: u64, describe: &dyn Fn() -> String, ctx: &mut Ctx) -> Result<bool, Failure> {
+    judge_s(dec, e, lower_d, lower_s, upper_d, u64::MAX, describe, ctx)
+}
+
+/// `upper_s`: bound on the skipping cost (the same multiple of the documented model,
+/// applied to the part of the message that is skipped or read as an untyped value).
+#[allow(clippy::too_many_arguments)]
+fn judge_s(dec: &Decoder, e: &mut Ent, lower_d: u64, lower_s: u64, upper_d: u64, upper_s: u64, describe: &dyn Fn() -> String, ctx: &mut Ctx) -> Result<bool, Failure> {
     let fail = |sig: &str, msg: String| Failure::new(format!("{sig}"), format!("{msg}\ndecoder: {}\n{}", dec.name, describe()));
     let run = |cfg: &DecoderConfig| -> Result<Result<(Vec<RVal>, Cost), String>, Failure> {
         (dec.run)(cfg).map_err(|p| fail(&format!("decode:{}", p.sig()), format!("panicked at {}: {}", p.location, p.message)))
@@ -125,6 +132,12 @@ fn judge(dec: &Decoder, e: &mut Ent, lower_d: u64, lower_s: u64, upper_d: u64, d
     }
     if cd as u64 > upper_d {
         return Err(fail("cost-far-above-documented-model", format!("decoding cost {cd} > 16 x documented model + 256 = {upper_d}")));
+    }
+    if cs as u64 > upper_s {
+        return Err(fail("skipping-cost-far-above-documented-model", format!("skipping cost {cs} > 16 x documented model of the skipped / untyped part + 256 = {upper_s}")));
+    }
+    if upper_s > 256 && upper_s != u64::MAX {
+        ctx.note_max("max_skipping_cost_over_model_permille", (cs as u64 * 1000 / ((upper_s - 256) / 16).max(1)) as i64);
     }
     if upper_d > 256 && upper_d != u64::MAX {
         ctx.note_max("max_cost_over_model_permille", (cd as u64 * 1000 / ((upper_d - 256) / 16).max(1)) as i64);
@@ -462,6 +475,9 @@ bytes {}",
             hex::encode(&bytes)
         )
     };
+    if std::env::var_os("VF_DEBUG").is_some() {
+        eprintln!("{}", describe());
+    }
     match judge(&dec, e, wire_count, skipped, upper, &describe, ctx) {
         Ok(ok) => {
             if ok {
@@ -503,10 +519,36 @@ fn mixed_sequence_case(e: &mut Ent, ctx: &mut Ctx) -> Outcome {
     };
     let table_len = d.header.table.len();
     let wire_count: u64 = d.values.iter().map(count_values).sum();
-    let mw: u64 = d.values.iter().zip(&d.types.args).map(|(v, t)| model(&d.types.graph, *t, v, table_len)).sum();
+    let per_arg: Vec<u64> = d.values.iter().zip(&d.types.args).map(|(v, t)| model(&d.types.graph, *t, v, table_len)).collect();
     let header_cost = 4 * d.header.value_start as u64;
-    // nothing is skipped: every argument is read at its own type or as a value
-    let upper = 16 * (header_cost + 2 * mw + 64) + 256;
+    // Reading an argument as an IDLValue is metered like skipping it (documented with the
+    // skipping quota: 50x in the decoding cost, and charged to the skipping quota); an
+    // argument read at its native type is neither
+    // (a native type that mentions `reserved` discards what it reads there, which is
+    // skipping too)
+    let mentions_reserved = |t: TId| -> bool {
+        let g = &d.types.graph;
+        let mut seen = vec![false; g.nodes.len()];
+        let mut todo = vec![t];
+        while let Some(x) = todo.pop() {
+            if seen[x] {
+                continue;
+            }
+            seen[x] = true;
+            match &g.nodes[x] {
+                Node::Prim(Prim::Reserved) => return true,
+                Node::Opt(y) | Node::Vec(y) => todo.push(*y),
+                Node::Record(fs) | Node::Variant(fs) => todo.extend(fs.iter().map(|f| f.1)),
+                _ => {}
+            }
+        }
+        false
+    };
+    let skippable: Vec<bool> = untyped.iter().zip(&d.types.args).map(|(u, t)| *u || mentions_reserved(*t)).collect();
+    let m_untyped: u64 = per_arg.iter().zip(&skippable).filter(|(_, u)| **u).map(|(m, _)| 2 * m + 64).sum();
+    let m_native: u64 = per_arg.iter().zip(&skippable).filter(|(_, u)| !**u).map(|(m, _)| 2 * m + 64).sum();
+    let upper = 16 * (header_cost + 50 * m_untyped + m_native) + 256;
+    let upper_s = 16 * m_untyped + 256;
     ctx.class("native");
     ctx.class("mixed-untyped-and-native-arguments");
     let bytes2 = bytes.clone();
@@ -533,7 +575,7 @@ fn mixed_sequence_case(e: &mut Ent, ctx: &mut Ctx) -> Outcome {
         }),
     };
     let describe = || format!("message of ({}): {}", idx.iter().map(|i| reg[*i].name()).collect::<Vec<_>>().join(", "), hex::encode(&bytes));
-    match judge(&dec, e, wire_count, 0, upper, &describe, ctx) {
+    match judge_s(&dec, e, wire_count, 0, upper, upper_s, &describe, ctx) {
         Ok(ok) => {
             if ok {
                 ctx.nontrivial(digest_of(&bytes));
